@@ -418,9 +418,17 @@ func kindedUnionNodeAssemblerMethodTemplateMunge(
 	if twoReturns {
 		maybeNilComma += "nil,"
 	}
+	// When the union itself sits in a nullable position, a null is for that position, not for a member.
+	allowNullCase := ""
+	if methodName == "AssignNull" {
+		allowNullCase = `
+			case allowNull:
+				*na.m = schema.Maybe_Null
+				return nil`
+	}
 	return `
 		func (na *_{{ .Type | TypeSymbol }}__ReprAssembler) ` + methodSig + ` {
-			switch *na.m {
+			switch *na.m {` + allowNullCase + `
 			case schema.Maybe_Value, schema.Maybe_Null:
 				panic("invalid state: cannot assign into assembler that's already finished")
 			case midvalue:
@@ -479,7 +487,7 @@ func (g unionKindedReprBuilderGenerator) EmitNodeAssemblerMethodBeginList(w io.W
 	), w, g.AdjCfg, g)
 }
 func (g unionKindedReprBuilderGenerator) EmitNodeAssemblerMethodAssignNull(w io.Writer) {
-	// TODO: I think this may need some special handling to account for if our union is itself used in a nullable circumstance; that should overrule this behavior.
+	// (kindedUnionNodeAssemblerMethodTemplateMunge adds the case for a union that is itself used in a nullable position.)
 	doTemplate(kindedUnionNodeAssemblerMethodTemplateMunge(
 		`AssignNull`,
 		`AssignNull() error `,
